@@ -298,7 +298,7 @@ func (e *Engine) intrinsic(name string, args []any) any {
 		lc.argNames = []string{"count", "i", "post:ret"}
 		e.cut = lc
 		return nil
-	case "AdversaryConn", "AdversaryConnMode", "RogueServerConn":
+	case "AdversaryConn", "AdversaryConnMode", "AdversaryConnReset", "RogueServerConn":
 		return IfaceV{}
 	case "Quiesce":
 		e.quiesce()
